@@ -993,7 +993,7 @@ func (fv *FuncVerifier) joinInto(dst *State, states []*State) {
 func (fv *FuncVerifier) callRepoFunc(st *State, env *Env, call *ast.CallExpr, fi *FuncInfo, sig *types.Signature, recv Term, hasRecv bool, args []Term) []Term {
 	c := fi.Contr
 	fv.calleesUsed[fi.Key] = true
-	if c == nil || !(c.Has("requires", 0) || c.Has("ensures", 0) || c.Has("pure", 0) || c.Has("assigns", 0) || c.Has("yields", 0) || c.Has("effects", 0) || c.Has("functional", 0)) {
+	if c == nil || !(c.Has("requires", 0) || c.Has("ensures", 0) || c.Has("pure", 0) || c.Has("assigns", 0) || c.Has("yields", 0) || c.Has("effects", 0) || c.Has("functional", 0) || returnedLit(fv, fi) > 0 && c.Has("yields", returnedLit(fv, fi))) {
 		// no contract: arbitrary effects and results
 		if !env.spec {
 			fv.nondet = append(fv.nondet, "call of uncontracted "+fi.Key)
@@ -1114,11 +1114,44 @@ func (fv *FuncVerifier) callRepoFunc(st *State, env *Env, call *ast.CallExpr, fi
 		g := fv.evalClauseFor(fi, st, cl, binds, names, pre, preBinds)
 		st.Assume(g)
 	}
-	// function-level `yields E` gives callers yielded(result) == E
-	for _, cl := range c.Get("yields", 0, 0) {
-		if len(res) == 1 {
-			e := fv.evalClauseFor(fi, st, cl, binds, names, pre, preBinds)
-			st.Assume(App(SBool, "=", fv.yielded(res[0], e.Sort), e))
+	// `yields E` of the function (or of the iterator literal it returns) gives callers yielded(result) == E
+	ylit := returnedLit(fv, fi)
+	// postconditions of the returned iterator literal, read for a run to completion: out := yielded(result),
+	// out2 := yielded2(result), stopped := false
+	if ylit > 0 && len(res) == 1 && len(c.Get("ensures", 0, ylit)) > 0 {
+		if lsig := litSignature(fi, ylit); lsig != nil && lsig.Params().Len() == 1 {
+			if ys, ok := lsig.Params().At(0).Type().Underlying().(*types.Signature); ok {
+				n2 := map[string]Term{"stopped": False}
+				for k, v := range names {
+					n2[k] = v
+				}
+				if ys.Params().Len() >= 1 {
+					n2["out"] = fv.yielded(res[0], fv.w.SeqSort(fv.sortOf(ys.Params().At(0).Type())))
+				}
+				if ys.Params().Len() >= 2 {
+					n2["out2"] = fv.yielded2(res[0], fv.w.SeqSort(fv.sortOf(ys.Params().At(1).Type())))
+					st.Assume(App(SBool, "=", fv.w.SeqLen(n2["out"]), fv.w.SeqLen(n2["out2"])))
+				}
+				for _, cl := range c.Get("ensures", 0, ylit) {
+					st.Assume(fv.evalLitClauseFor(fi, ylit, st, cl, binds, n2, pre, preBinds))
+				}
+			}
+		}
+	}
+	for _, kind := range []string{"yields", "yields2"} {
+		cls := c.Get(kind, 0, 0)
+		if len(cls) == 0 && ylit > 0 {
+			cls = c.Get(kind, 0, ylit)
+		}
+		for _, cl := range cls {
+			if len(res) == 1 {
+				e := fv.evalClauseFor(fi, st, cl, binds, names, pre, preBinds)
+				if kind == "yields" {
+					st.Assume(App(SBool, "=", fv.yielded(res[0], e.Sort), e))
+				} else {
+					st.Assume(App(SBool, "=", fv.yielded2(res[0], e.Sort), e))
+				}
+			}
 		}
 	}
 	return res
@@ -1236,6 +1269,80 @@ func (fv *FuncVerifier) heapVersion(st *State) int {
 
 func (fv *FuncVerifier) obligeNamed(st *State, env *Env, class, kind string, goal Term, site token.Pos, desc string) {
 	fv.oblige(st, env, class, kind, goal, site, desc)
+}
+
+func litByOrd(fi *FuncInfo, ord int) *ast.FuncLit {
+	_, lits := numberLoopsAndLits(fi.Decl)
+	for l, o := range lits {
+		if o == ord {
+			return l
+		}
+	}
+	return nil
+}
+
+func litSignature(fi *FuncInfo, ord int) *types.Signature {
+	l := litByOrd(fi, ord)
+	if l == nil {
+		return nil
+	}
+	if t, ok := fi.Pkg.TypesInfo.Types[l]; ok {
+		s, _ := t.Type.Underlying().(*types.Signature)
+		return s
+	}
+	return nil
+}
+
+// evalLitClauseFor evaluates a clause of callee fi's literal `ord` at a call site (ghost names supplied).
+func (fv *FuncVerifier) evalLitClauseFor(fi *FuncInfo, ord int, st *State, cl *Clause, binds map[types.Object]Term, names map[string]Term, pre *State, preBinds map[types.Object]Term) Term {
+	l := litByOrd(fi, ord)
+	pos := l.Body.Lbrace + 1
+	gt := ghostTypesFor(fi, l, fi.Pkg.TypesInfo)
+	if lsig := litSignature(fi, ord); lsig != nil && lsig.Params().Len() == 1 {
+		if ys, ok := lsig.Params().At(0).Type().Underlying().(*types.Signature); ok {
+			if ys.Params().Len() >= 1 {
+				gt["out"] = types.NewSlice(ys.Params().At(0).Type())
+			}
+			if ys.Params().Len() >= 2 {
+				gt["out2"] = types.NewSlice(ys.Params().At(1).Type())
+			}
+			gt["stopped"] = types.Typ[types.Bool]
+		}
+	}
+	cc := checkClause(fv.prog, fi, cl, pos, gt)
+	if cc.err != nil {
+		fv.bindErrors = append(fv.bindErrors, fmt.Sprintf("%s (%s of callee %s lit %d): %v", cl.Pos, cl.Kind, fi.Key, ord, cc.err))
+		return fv.fresh("badclause", SBool)
+	}
+	env := &Env{info: cc.info, spec: true, old: pre, binds: map[types.Object]Term{}, oldB: preBinds}
+	for k, v := range binds {
+		env.binds[k] = v
+	}
+	for n, o := range cc.params {
+		if t, ok := names[n]; ok {
+			env.binds[o] = t
+		}
+	}
+	return fv.eval(st, env, cc.expr)
+}
+
+// returnedLit: ordinal of the function literal that fi returns (its only `return func...`), 0 if none.
+func returnedLit(fv *FuncVerifier, fi *FuncInfo) int {
+	_, lits := numberLoopsAndLits(fi.Decl)
+	found := 0
+	for _, s := range fi.Decl.Body.List {
+		if r, ok := s.(*ast.ReturnStmt); ok && len(r.Results) == 1 {
+			if l, ok := ast.Unparen(r.Results[0]).(*ast.FuncLit); ok {
+				found = lits[l]
+			}
+		}
+	}
+	return found
+}
+
+func (fv *FuncVerifier) yielded2(it Term, seq Sort) Term {
+	name := fv.w.UFun("yielded2_"+string(seq), []Sort{SRef}, seq, "")
+	return App(seq, name, it)
 }
 
 // yielded(it): the sequence of (first components of) values iterator `it` yields when run to completion.
